@@ -56,6 +56,7 @@ def run(ctx):
         m, data, df = zoo.make(name)
         m.initialize(zoo_dataset(data, m))
         models.append(vg.model_declaration(m))
+        models.append(vg.model_declaration(m, incremental=True))
     batches.append(("models", models, 0, 0))
     n_ok = sum(r["cls"] == "ok" for _, rs, _, _ in batches for r in rs)
     for tag, rs, en, ec in batches:
